@@ -62,7 +62,7 @@ def rule(a):
 def _(c):
     c.ghost("cal", IsoStdCalG("cal")).arg("self", YearOffsetG()).arg("year", Int())
     c.setup = _setup
-    c.timeout_s = 300
+    c.timeout_s = 60  # x6 in the thorough tier
     c.max_paths = 20000
     c.vc_chunks = 1
     c.tiers = ("thorough",)  # four obligations need 20-120 s each (cvc5); the quick tier decides the property's own domain (the stored rules) below
@@ -163,5 +163,25 @@ def _(c):
         if want == nzd.INF:
             return not r._is_valid
         return r._is_valid and r._time_since_local_epoch.to_nanoseconds() == want * 100
+
+    c.returns(post)
+
+
+@contract(ZYO + "_get_occurrence_for_year", "C04", name="YEAR-LOCAL discharged for the real data: for every stored rule and every year 1..9999 the occurrence lies in that year (the interface fact the recurrence contracts rely on)")
+def _(c):
+    import datetime as _dt
+
+    c.arg("self", Int()).arg("year", Int())
+    c.ground = _ground
+    c.ground_chunks = 16
+    c.ground_interp_stride = 10**9
+    c.allow_mutation = lambda obj, n: True
+    epoch = _dt.date(1970, 1, 1).toordinal()
+
+    def post(a, r):
+        if not r._is_valid:
+            return a.year == 9999  # 24:00 on the last day of the last year: the end-of-time marker
+        days = r._time_since_local_epoch.floor_days if hasattr(r._time_since_local_epoch, "floor_days") else r._time_since_local_epoch._floor_days
+        return _dt.date.fromordinal(days + epoch).year == a.year
 
     c.returns(post)
